@@ -4,10 +4,10 @@ Driver for the incremental-parsing scanner layer (`Model/Incremental.lean`), exe
   {"op":"scan","mode":"t"|"b","term":T,"k":k,"inc":bool,"idx":n,"pre":[u…],"rest":[u…],"w":w,"len":n,
    "oracle":O}
       → {"outs":[{"col":j,"inc":bool,"idx":n,"pre":[u…],"leaf":leaf|null}…]}
-     one call of scan_bytes / scan_regex / scan_bit on a state with the given flags
+     the scanning branch of `_consume` for one state with the given flags in column k: scan_bit in every
+     column, scan_bytes / scan_regex only if k % 8 = 0
   {"op":"run","mode":…,"alts":[[T…]…],"pieces":[[u…]…],"oracle":O}
-      → {"steps":[{"parses":[[leaf…]…],"can_continue":bool,"resumable":[{"want":T,"idx":n,"pre":[u…]}…],
-                   "aligned":bool}…]}
+      → {"steps":[{"parses":[[leaf…]…],"can_continue":bool,"resumable":[{"want":T,"idx":n,"pre":[u…]}…]}…]}
      `new_parse`, then `consume(piece)` for every piece, on the engine for unions of terminal sequences
 
   T := ["lit",[units]] | ["re",id] | ["bit",0|1]
@@ -69,11 +69,6 @@ def jEntryOut (p : Nat × Entry LinItem) : Json :=
       | some l => if p.2.inc then Json.null else jLeaf l
       | none => Json.null)]
 
-def alignedB (s : PState LinItem) : Bool :=
-  s.done.zipIdx.all (fun (c, k) =>
-    k % 8 == 0 || c.all (fun e => match linEngine.want e.item with
-      | some (.lit _) => false | some (.regex _) => false | _ => true))
-
 def handle (j : Json) : Except String Json := do
   let op ← j.getObjValAs? String "op"
   match op with
@@ -99,13 +94,13 @@ def handle (j : Json) : Except String Json := do
     let pieces ← (← (← j.getObjVal? "pieces").getArr?).toList.mapM natArr
     let step (acc : PState LinItem × List Json) (piece : List Nat) : PState LinItem × List Json :=
       let s := feed linEngine R md acc.1 piece
-      let parses := (completeParses linEngine s).map (fun t => Json.arr ((t.leaves.map jLeaf).toArray))
+      let parses := (completeParses linEngine R md s).map (fun t => Json.arr ((t.leaves.map jLeaf).toArray))
       let res := (resumable s).map (fun e => Json.mkObj [
         ("want", match linEngine.want e.item with | some t => jTTerm t | none => Json.null),
         ("idx", Json.num (JsonNumber.fromNat e.idx)), ("pre", jNats e.pre)])
       (s, acc.2 ++ [Json.mkObj [("parses", Json.arr parses.toArray),
         ("can_continue", Json.bool (canContinue linEngine s)),
-        ("resumable", Json.arr res.toArray), ("aligned", Json.bool (alignedB s))]])
+        ("resumable", Json.arr res.toArray)]])
     let (_, steps) := pieces.foldl step (linStart alts, [])
     return Json.mkObj [("steps", Json.arr steps.toArray)]
   | _ => throw s!"unknown op {op}"
